@@ -81,3 +81,63 @@ Definition C07_linearizable_with_compaction_microsteps := C07_linearizable_micro
 (* sensitivity: if Get's index lookup and log read were two instants, a history with a whole
    compaction in between is NOT linearizable *)
 Definition C07_split_get_not_linearizable := non_atomic_not_linearizable.
+
+(* ---- on the PHYSICAL index (PhysConc.v): three layers phys -- PR --> chain -- st_rel --> flat; hypotheses on the
+   flat layer only ---- *)
+From Pogreb Require Import Base BaseLemmas Record Flat Index Spec DB DBInv DBLemmas DBProofsOps DBMeta
+  DBProofsCompact DBSim DBRun DBSimExact Bucket Phys PhysProofs PhysDB DBSimSessions PhysCrash Linz PhysConc.
+Import ListNotations.
+(* every concurrent history (Call / Return events, pending operations allowed, whole Compact as an operation) of the physical-index database is linearizable w.r.t. the plain map *)
+Theorem C07_linearizable_on_the_physical_index :
+  forall P (s1 : (@DB.st phys)) (sp : (@DB.st pindex)) (sf : (@DB.st flat)) (es : list (event op' out)) c,
+
+  params_ok P -> gst_rel PR s1 sp -> st_rel sp sf -> Inv P sf -> MetaOK sf ->
+  exec (step' phys_ops P) no_guard no_bg s1 es c ->
+  Forall op_valid' (map snd (act_ops es)) -> rooms' P sf (map snd (act_ops es)) ->
+  linearization step_spec' out_equiv' (abs (s_disk sf)) (hist es) (lin_of (step' phys_ops P) s1 es) /\
+  linearization (step_chain' P) eq sp (hist es) (lin_of (step' phys_ops P) s1 es) /\
+  linearization (step_flat' P) out_equiv sf (hist es) (lin_of (step' phys_ops P) s1 es) /\
+  hist_wf (hist es) /\
+  let sp' := seq_final (step_chain' P) sp (map snd (act_ops es)) in
+  let sf' := seq_final (step_flat' P) sf (map snd (act_ops es)) in
+  gst_rel PR (c_s c) sp' /\ st_rel sp' sf' /\ Inv P sf' /\ MetaOK sf' /\
+  meq (abs (s_disk sf')) (seq_final step_spec' (abs (s_disk sf)) (map snd (act_ops es))) /\
+  (s_mem sf' <> None -> phys_open_ok (c_s c)).
+Proof. exact C07_linearizable_phys. Qed.
+Print Assumptions C07_linearizable_on_the_physical_index.
+
+(* ... with compaction running as background micro-steps (one critical section each) between the clients actions *)
+Theorem C07_linearizable_microsteps_on_the_physical_index :
+  forall (P : params) (s1 : (@DB.st phys)) (sp : (@DB.st pindex)) (sf : (@DB.st flat)) (c : cursor)
+    (es : list (event op out)) cf,
+
+  params_ok P -> gst_rel PR s1 sp -> st_rel sp sf -> Inv P sf -> CInv sf c -> MetaOK sf ->
+  exec (pmstep P) pmguard (pmbg P) (s1, c) es cf ->
+  exists lin,
+    linearization step_spec out_equiv (abs (s_disk sf)) (hist es) lin /\ map fst lin = act_ops es /\
+    hist_wf (hist es) /\
+    exists sp' sf',
+      gst_rel PR (fst (c_s cf)) sp' /\ st_rel sp' sf' /\
+      Inv P sf' /\ CInv sf' (snd (c_s cf)) /\ MetaOK sf' /\ phys_open_ok (fst (c_s cf)) /\
+      meq (abs (s_disk sf')) (seq_final step_spec (abs (s_disk sf)) (map snd (act_ops es))).
+Proof. exact C07_linearizable_microsteps_phys. Qed.
+Print Assumptions C07_linearizable_microsteps_on_the_physical_index.
+
+(* read-your-writes corollary *)
+Theorem C07_read_your_writes_on_the_physical_index :
+  forall P (s1 : (@DB.st phys)) (sp : (@DB.st pindex)) (sf : (@DB.st flat)) (es : list (event op' out)) c
+    ip ig k v rp r,
+
+  params_ok P -> gst_rel PR s1 sp -> st_rel sp sf -> Inv P sf -> MetaOK sf ->
+  exec (step' phys_ops P) no_guard no_bg s1 es c ->
+  Forall op_valid' (map snd (act_ops es)) -> rooms' P sf (map snd (act_ops es)) ->
+  In (HCall ip (OpBase (OpPut k v))) (hist es) ->
+  before (hist es) (HRet ip rp) (HCall ig (OpBase (OpGet k))) ->
+  In (HRet ig r) (hist es) ->
+  (forall j o, In (HCall j o) (hist es) -> j <> ip -> writes_key k o ->
+     (exists r', before (hist es) (HRet j r') (HCall ip (OpBase (OpPut k v)))) \/
+     before (hist es) (HRet ig r) (HCall j o)) ->
+  r = OVal (Some v).
+Proof. exact C07_read_your_writes_phys. Qed.
+Print Assumptions C07_read_your_writes_on_the_physical_index.
+
